@@ -1,2 +1,35 @@
 """Registry of delivered property checks (drives MANIFEST.json and vcheck)."""
+import importlib
+
+CONTRACT_MODULES = ["contracts.c_bip32"]
+
+COMMON_TB = [
+    "H1-H4: hashlib/hmac/pbkdf2/unicodedata are deterministic total functions with the standard output lengths (uninterpreted, same symbols in code and spec)",
+    "E1-E6: assumed contracts of ecdsa 0.19 (SigningKey.from_string range check, SEC1 encodings, prime-order group axioms)",
+    "B1-B5: int.to_bytes/from_bytes are positional base-256 (numeric ropes)",
+]
+COMMON_ASSUME = [
+    "the ecdsa back end is the one that runs here (pysecp256k1's native library is absent): the pysecp256k1 branches are dead in this configuration and NOT verified",
+    "Python integers are mathematical (exact); no machine arithmetic is involved outside ripemd.py/bech32.py",
+]
+
+
+def contract_items(pid, **extra):
+    items = []
+    for m in CONTRACT_MODULES:
+        mod = importlib.import_module(m)
+        for c in mod.CONTRACTS:
+            if pid in getattr(c, "props", ()):
+                it = dict(kind="contract", spec=f"{m}:{type(c).__name__}")
+                only = getattr(c, "clauses_for", {}).get(pid)
+                if only:
+                    it["only"] = list(only) + ["frame"]
+                it.update(extra)
+                items.append(it)
+        for c in getattr(mod, "CANARIES", []):
+            if pid in getattr(c, "props", ()):
+                items.append(dict(kind="canary", spec=f"{m}:{type(c).__name__}"))
+    return items
+
+
 REGISTRY = {}
